@@ -254,9 +254,17 @@ def run_case_inner(body, spec, complex_=False, validate=False, max_paths=2000, s
                                name=f"raised:{type(e).__name__}", detail=f"{e}\n{tb}")
             continue
         S = p.value
+        S.obl.extend(c.obligations)  # obligations stated by stubs (e.g. Hermitian argument of eigh)
         # path feasibility / non-vacuity of assumptions
-        c.solver.set("timeout", query_timeout_ms)
-        feas = c.solver.check()
+        # vacuity: unsat assumptions+path condition would prove anything.  (short budget: with stub contracts the
+        # witness search is non-linear; 'unknown' is not vacuity — the contracts are validated against LAPACK numerically)
+        if c.assumptions:
+            # assumptions are definitions of fresh quotients/roots and LAPACK contracts: satisfiable by construction
+            # (every numeric input has a LAPACK output satisfying the contract - validated numerically by
+            # vlib.stubs.validate_contracts); the branch conditions alone are checked for feasibility
+            feas = c.light.check()
+        else:
+            feas = c.solver.check()
         res.queries += 1
         if feas == z3.unsat:
             res.harness_errors.append("vacuous path: assumptions+path condition unsatisfiable")
@@ -268,16 +276,57 @@ def run_case_inner(body, spec, complex_=False, validate=False, max_paths=2000, s
         if S.obl:
             res.nontrivial = True
         res.obligations += len(S.obl)
+        if getattr(res, "_falsified", False):
+            continue  # the case is already falsified on the real code: no need to search further paths
         if S.obl:
             goal = z3.And(*[f for _, f in S.obl]) if len(S.obl) > 1 else S.obl[0][1]
-            r = c.solver.check(z3.Not(goal))
-            res.queries += 1
+            r = None
+            if c.assumptions:
+                # with non-linear stub contracts: first decide the linear abstraction (monomials as atoms)
+                r = _check_linear(c, goal)
+                res.queries += 1
+            if r is not None and r != z3.unsat and not getattr(res, "_num_tried", False):
+                # the abstraction did not prove it: before a (possibly very long) non-linear search for a model, try to
+                # falsify on the real code with ordinary numpy blocks and random data - a failing run *is* the replayed violation
+                res._num_tried = True
+                for t in range(2):
+                    vals = {n: random.Random(seed * 31 + t).uniform(-2, 2) for n in sorted(set(S.varnames))}
+                    failed, structural, err, Sn = replay_numeric(body, spec, complex_, vals, seed=seed * 31 + t)
+                    if failed or structural or err is not None:
+                        nm = failed[0] if failed else (structural[0][0] if structural else f"raised:{type(err).__name__}")
+                        res.violations.append({"body": getattr(body, "__name__", str(body)), "kind": "value", "name": nm,
+                                               "detail": f"not provable from the stub contracts (linear abstraction: {r}); random concrete data falsifies it on the real code; also failing: {failed[1:6]}",
+                                               "spec": spec, "values": dict(Sn.values), "complex": complex_, "replay_failed": failed[:10],
+                                               "replay_structural": [list(x) for x in structural[:5]],
+                                               "replay_error": None if err is None else f"{type(err).__name__}: {err}", "reproduced": True})
+                        r = "falsified"
+                        res._falsified = True
+                        break
+            if r == "falsified":
+                continue
+            if r is not None and r != z3.unsat and any(t and "contract" in t for t, _ in c.assumptions):
+                # under LAPACK contracts nlsat neither terminates reliably nor honours its time-out: obligations the
+                # abstraction cannot prove one by one are reported inconclusive (the numeric falsification above found nothing)
+                for name, f in S.obl:
+                    r1 = _check_linear(c, f)
+                    res.queries += 1
+                    if r1 == z3.unsat:
+                        res.discharged += 1
+                    else:
+                        res.inconclusive += 1
+                        res.notes["inconclusive:" + name.split("@")[0].split("[")[0][:40]] = res.notes.get("inconclusive:" + name.split("@")[0].split("[")[0][:40], 0) + 1
+                continue
+            if r != z3.unsat:
+                r = c.solver.check(z3.Not(goal))
+                res.queries += 1
             if r == z3.unsat:
                 res.discharged += len(S.obl)
             elif r == z3.unknown:
                 # try one by one
                 for name, f in S.obl:
-                    r1 = c.solver.check(z3.Not(f))
+                    r1 = _check_linear(c, f) if c.assumptions else None
+                    if r1 != z3.unsat:
+                        r1 = c.solver.check(z3.Not(f))
                     res.queries += 1
                     if r1 == z3.unsat:
                         res.discharged += 1
@@ -296,7 +345,7 @@ def run_case_inner(body, spec, complex_=False, validate=False, max_paths=2000, s
                 _counterexample(res, body, spec, complex_, c, S, name, f, also=[n for n, _ in bad[1:6]], model=m)
         for name, f in S.canaries:
             res.canaries += 1
-            r = c.solver.check(z3.Not(f))
+            r = (c.light if c.assumptions else c.solver).check(z3.Not(f))
             res.queries += 1
             if r == z3.sat:
                 res.canaries_ok += 1
@@ -315,6 +364,20 @@ def run_case_inner(body, spec, complex_=False, validate=False, max_paths=2000, s
             res.notes[n] = res.notes.get(n, 0) + 1
     res.solver_s = time.time() - t0
     return res
+
+
+def _check_linear(c, goal):
+    L = getattr(c, "_lin", None)
+    if L is None:
+        sq = {v[0].get_id(): v[1] for k, v in c.memo.items() if isinstance(k, tuple) and k and k[0] == "sqrt"}
+        L = c._lin = zt.Linearizer(sq)
+        c._lin_solver = z3.Solver()
+        c._lin_solver.set("timeout", 20000)
+        for _, f in c.assumptions:
+            c._lin_solver.add(L.lin(z3.simplify(f, som=True)))
+        for f in c.path:
+            c._lin_solver.add(L.lin(z3.simplify(f, som=True)))
+    return c._lin_solver.check(z3.Not(L.lin(z3.simplify(goal, som=True))))
 
 
 def _short(spec):
@@ -371,6 +434,13 @@ def _replay_and_record(res, body, spec, complex_, c, S, kind, name, detail, valu
             m = _bounded_model(c.solver, z3.BoolVal(True), names) or c.solver.model()
             values = _model_values(m, names)
     failed, structural, err, Sn = replay_numeric(body, spec, complex_, values)
+    if kind in ("raised", "structural") and not (failed or structural or err is not None):
+        # an unconstrained model is typically all zeros, which hides value errors: also try generic data
+        for t in range(2):
+            failed, structural, err, Sn = replay_numeric(body, spec, complex_, {}, seed=1000 + t)
+            if failed or structural or err is not None:
+                values = dict(Sn.values)
+                break
     if kind == "raised" and "cast trap" in str(detail) and not (failed or structural or err is not None):
         # a symbolic entry was written into a machine-typed array (e.g. zeros created without the data's dtype).
         # With float64 data numpy does this silently and correctly; with complex data the imaginary part is lost:
@@ -389,7 +459,8 @@ def _replay_and_record(res, body, spec, complex_, c, S, kind, name, detail, valu
     elif kind == "structural":
         reproduced = any(n == name for n, _ in structural) or bool(structural) or err is not None
     elif kind == "raised":
-        reproduced = err is not None or bool(structural)
+        # (an exception inside the term layer may correspond to a wrong *value* on machine numbers)
+        reproduced = err is not None or bool(structural) or bool(failed)
     rec = {
         "body": getattr(body, "__name__", str(body)),
         "kind": kind,
